@@ -1214,3 +1214,30 @@ Proof.
   unfold read_vals. rewrite sub_bytes_short; [reflexivity | nia |].
   rewrite Lf. replace (0 * m * vw) with 0 by lia. rewrite s64_u64_small by (unfold two63; lia). nia.
 Qed.
+
+(* ================================================================== checked = false on inputs the repaired reader accepts *)
+(* the reader as it is agrees with the repaired reader on every input the repaired reader accepts *)
+Theorem bin_read_current_wf_input_safe : forall n_signed vw f r0 r1 A,
+  read_crs true n_signed vw f r0 r1 = Ok A -> read_crs false n_signed vw f r0 r1 = Ok A.
+Proof.
+  intros ns vw f r0 r1 A H. unfold read_crs in *. cbn [negb orb] in *.
+  destruct (sub_bytes f 0 8) as [nb|]; cbn [of_opt bind] in *; [|discriminate].
+  cbv zeta in *.
+  repeat first
+    [ match type of H with context [guard ?b ?e] =>
+        destruct b eqn:?; cbn [guard bind] in *; [|discriminate] end
+    | match type of H with context [of_opt ?o ?e] =>
+        destruct o eqn:?; cbn [of_opt bind] in *; [|discriminate] end
+    | match type of H with context [match ?l with [] => _ | _ :: _ => _ end] =>
+        destruct l; [discriminate|] end ].
+  exact H.
+Qed.
+
+Corollary bin_read_current_wf_input_safe_wf : forall n_signed vw f r0 r1 A,
+  0 < vw -> read_crs true n_signed vw f r0 r1 = Ok A ->
+  read_crs false n_signed vw f r0 r1 = Ok A /\ wf_flat A = true.
+Proof.
+  intros ns vw f r0 r1 A Hvw H. split.
+  - apply bin_read_current_wf_input_safe; exact H.
+  - assert (S := bin_read_checked_safe ns vw f r0 r1 Hvw). rewrite H in S. exact S.
+Qed.
